@@ -86,7 +86,7 @@ def fam_term(fam, lazy):
                     u, p = MIXIN_FMTS[m]
                     fmts.append(f"({FMT_ID[u]}, {FMT_ID[p]})")
         ghost = len(fam["classes"])      # a class id that is never defined: its name is never bound
-        fields = [f"(FD {t[1]} {spec_id(t[3])})" if t[0] == "dc" else f"(FD {ghost} 0)"
+        fields = [f"(FD {t[1]} {spec_id(t[3])} {b(not (len(t) > 4 and t[4] == 'Self'))})" if t[0] == "dc" else f"(FD {ghost} 0 true)"
                   for _, t in F.all_fields(fam, i) if t[0] in ("dc", "ghost")]
         out.append(f"(CD {b(lazy[i] and c['kind'] == 'mixin')} {b(c['dsup'])} [{'; '.join(fmts)}] [{'; '.join(fields)}])")
     return "[" + "; ".join(out) + "]"
@@ -131,14 +131,8 @@ def case_term(case, d5=True):
     fam = case["fam"]
     snaps = case["snaps"]
     steps = []
-    from harness.props.c14 import selfref_dialect_gap
     for (k, op, got, exp, sig), meta, snap in zip(case["res"], case["opmeta"], snaps[1:]):
         if not meta["valid"]:
-            break
-        if any(c["parent"] is not None for c in fam["classes"]) and selfref_dialect_gap(fam, snap):
-            # known finding C14/dialect-first-call-on-self-referencing-class in a family with inheritance: the real
-            # call may resolve through the MRO to an ancestor's method; the model has no MRO - the history is
-            # compared up to the operation that creates this configuration
             break
         kind = outcome_kind(got, case.get("rec", {}).get(k))
         if kind is None:
@@ -157,7 +151,7 @@ def case_term(case, d5=True):
 
 THEOREMS = ["C14_reachable_wf", "C14_call_state_independent", "C14_history_partial", "C14_history_refuted",
             "C14_first_call_terminates", "C14_lazy_dialect_diverges", "C14_lazy_specialisation_diverges",
-            "C14_no_cache_attribute_error", "C14_dialect_first_selfref_raises", "C14_build_cycle_diverges", "C14_schedules_partial"]
+            "C14_no_cache_attribute_error", "C14_build_cycle_diverges", "C14_schedules_partial"]
 
 
 def theorems(ctx):
